@@ -187,9 +187,11 @@ func (x *fnExec) loopHeader(fr *frame, li *loopInfo, cur *State, edges []inEdge)
 			x.variants[li] = v.T
 		}
 	}
+	li.head = cur.clone()
 }
 
 func (x *fnExec) loopBackEdge(fr *frame, li *loopInfo, from *ssa.BasicBlock, cond *Term, st *State) {
+	_ = li.head
 	spec := x.loopSpec(fr, li)
 	if spec == nil {
 		return
@@ -221,7 +223,7 @@ func (x *fnExec) loopBackEdge(fr *frame, li *loopInfo, from *ssa.BasicBlock, con
 		if n := len(from.Instrs); n > 0 {
 			term = from.Instrs[n-1]
 		}
-		env := &specEnv{x: x, vars: copyVars(fr.vars), cur: s2, old: fr.entry, info: cl.Info, fr: fr, at: term}
+		env := &specEnv{x: x, vars: copyVars(fr.vars), cur: s2, old: fr.entry, info: cl.Info, fr: fr, at: term, iter: li}
 		goal, hyp, sk := env.clauseGoal(cl)
 		o := x.obligation(s2, fmt.Sprintf("%s:loop %d:atend#%s", funcKey(x.top), li.ordinal, cl.Label), "assert", "end of iteration (back edge from block "+fmt.Sprint(from.Index)+")", clauseTags(fr.C, cl), goal, hyp, cl.Src)
 		o.skolems = sk
